@@ -32,11 +32,15 @@ type pkgMode struct {
 }
 
 var modes = map[string]pkgMode{
-	"tkestack.io/kvass/pkg/coordinator": {mapRange: true, clock: true, errgroup: true, wrand: true},
-	"tkestack.io/kvass/pkg/discovery":   {mapRange: true, clock: true, conc: true},
-	"tkestack.io/kvass/pkg/explore":     {mapRange: true, clock: true, errgroup: true, conc: true},
-	"tkestack.io/kvass/pkg/sidecar":     {mapRange: true},
-	"tkestack.io/kvass/pkg/shard":       {mapRange: true},
+	"tkestack.io/kvass/pkg/coordinator":      {mapRange: true, clock: true, errgroup: true, wrand: true},
+	"tkestack.io/kvass/pkg/discovery":        {mapRange: true, clock: true, conc: true},
+	"tkestack.io/kvass/pkg/explore":          {mapRange: true, clock: true, errgroup: true, conc: true},
+	"tkestack.io/kvass/pkg/sidecar":          {mapRange: true},
+	"tkestack.io/kvass/pkg/shard":            {mapRange: true},
+	"tkestack.io/kvass/pkg/shard/kubernetes": {mapRange: true, clock: true},
+	"tkestack.io/kvass/pkg/target":           {mapRange: true},
+	"tkestack.io/kvass/pkg/scrape":           {mapRange: true},
+	"tkestack.io/kvass/pkg/prom":             {mapRange: true},
 }
 
 const vrtPath = "verif/engine/vrt"
@@ -295,7 +299,6 @@ func (r *rw) rewriteFile() {
 var selectComm = map[ast.Node]bool{}
 
 func (r *rw) inSelectComm(c *astutil.Cursor) bool { return selectComm[c.Node()] }
-
 
 func (r *rw) rewriteRange(c *astutil.Cursor, n *ast.RangeStmt) {
 	tv, ok := r.info.Types[n.X]
